@@ -54,7 +54,8 @@ def lean_build(targets, timeout=3000):
 
 def prop_files(prop):
     import glob
-    return sorted(glob.glob(os.path.join(LEAN, 'CvxVerif', 'Props', prop + '*.lean')))
+    return sorted(glob.glob(os.path.join(LEAN, 'CvxVerif', 'Props', prop + '*.lean'))) + \
+           sorted(glob.glob(os.path.join(LEAN, 'CvxVerif', 'Gen', prop + '*.lean')))
 
 def theorem_names(prop):
     """names of the property theorems: every `theorem Cxx_*` of Props/Cxx*.lean (with its namespace)"""
@@ -73,7 +74,7 @@ def theorem_names(prop):
 def lean_audit(prop, extra_imports=()):
     """`#print axioms` of every property theorem; returns (ok, {theorem: [axioms]}, problems)"""
     names = theorem_names(prop)
-    src = ''.join('import CvxVerif.Props.%s\n' % os.path.basename(f)[:-5] for f in prop_files(prop)) + ''.join('import %s\n' % i for i in extra_imports)
+    src = ''.join('import CvxVerif.%s.%s\n' % (os.path.basename(os.path.dirname(f)), os.path.basename(f)[:-5]) for f in prop_files(prop)) + ''.join('import %s\n' % i for i in extra_imports)
     src += ''.join('#print axioms %s\n' % n for n in names)
     d = scratch_dir('cvxaudit_')
     f = os.path.join(d, 'Audit.lean')
